@@ -34,8 +34,13 @@ claim("C06",
       "Preempt/consolidation victim filters accept only preemptible, other, active jobs (preempt: strictly lower priority, same queue, plugin filter); reclaim candidates are of another queue, pass the plugin filter and the victims queue filters non-preemptible jobs; the min-runtime plugin registers all four hooks, rejects protected non-elastic victims, checks every protected elastic victim against minAvailable and its common-ancestor index only advances while queue paths agree; each action passes its validator to the solver and a scenario is solved only behind it; evictions and placement share the scenario's Statement; Session.Evict is used only by stale-gang eviction; consolidation rejects scenarios with a still-evicted victim; the start time is refreshed unless the workload already holds resources. Time arithmetic is not decided.",
       NOTE)
 
+claim("C08",
+      "guard dominance of placement by the capacity gates, registry resolution of the gate functions and their check lists, hierarchy-walk detection (loop re-bound through queues[q.ParentQueue]) with per-iteration must-pass-through, per-path return facts of the limit/quota comparisons, effect extraction of the plugin handlers, compile-time constants",
+      "AllocateJob places only behind IsJobOverQueueCapacityFn(..).IsSchedulable, preempt searches only behind the non-preemptible quota gate, and a node is accepted only behind the per-node gate; proportion registers the three gates and each runs limit + non-preemptible-quota checks (first failure decides); each check compares every ancestor and all three resources, answering 'over' exactly for limit < allocated+request / deserved < non-preemptible+request; allocate/deallocate handlers update Allocated for every ancestor and AllocatedNotPreemptible exactly for non-preemptible jobs; queue memory is scaled by the API unit 10^6. The numeric running sums are not decided.",
+      NOTE)
+
 NA = {
     "C15": "quantifies over infinite executions of a closed system (lasso freedom); no static shape of the code settles it. Its three guards (strict saturation comparison with multiplier >= 1, strictly-lower priority for preempt, consolidation only when all victims are re-placed) are decided as clauses of C07 and C06.",
 }
-for _p in ["C04","C05","C07","C08","C09","C10","C11","C12","C16","C17","C18","C19","C20"]:
+for _p in ["C04","C05","C07","C09","C10","C11","C12","C16","C17","C18","C19","C20"]:
     NA.setdefault(_p, "check under construction in this session (see DESIGN.md §4 for the planned static obligations); not claimed until the check exists")
